@@ -7,8 +7,38 @@ THEOREMS = ["C02_trimpath_tempdir_first_bare", "C02_everything_else_is_hashed", 
 M = "Qzxj"   # marker stem
 
 
-def marker_module(tag):
+def name_shape_dictionary():
+    """Identifier fragments that garble's own renaming decision compares names with (string literals of
+    obfuscatedObjectName in /repo's current transformer.go): used as prefixes and suffixes of marker names,
+    so that a decision keyed on the shape of a name is exercised whatever the shapes currently are."""
+    try:
+        src = open(os.path.join(vlib.REPO, "transformer.go")).read()
+        i = src.index("func (tf *transformer) obfuscatedObjectName(")
+        j = src.find("\nfunc ", i + 10)
+        body = src[i:j if j > 0 else len(src)]
+    except (OSError, ValueError):
+        body = ""
+    lits = sorted(set(re.findall(r'"([A-Za-z_][A-Za-z0-9_]{0,20})"', body)))
+    return lits or ["SET"]
+
+
+def shape_decls(tag, shapes):
+    """(declarations for the library file, a Go expression using all of them, the marker names)"""
+    decls, uses, names = [], [], []
+    for k, sh in enumerate(shapes):
+        sfx_f, pfx_f = "sfxfn%s%s" % (tag, sh), "%spfxfn%s" % (sh, tag)
+        sfx_t, sfx_fld, sfx_m = "sfxty%s%s" % (tag, sh), "sfxfld%s%s" % (tag, sh), "sfxmeth%s%s" % (tag, sh)
+        exp_t = "Sfxexp%s%s" % (tag, sh)
+        decls.append("//go:noinline\nfunc %s(n int) int { return n + %d }\n\n//go:noinline\nfunc %s(n int) int { return n * %d }\n" % (sfx_f, k + 1, pfx_f, k + 2))
+        decls.append("type %s struct{ %s int }\n\n//go:noinline\nfunc (v %s) %s() int { return v.%s + %d }\n\ntype %s []int\n" % (sfx_t, sfx_fld, sfx_t, sfx_m, sfx_fld, k, exp_t))
+        uses.append("%s(n) + %s(n) + %s{%s: n}.%s() + len(%s{n})" % (sfx_f, pfx_f, sfx_t, sfx_fld, sfx_m, exp_t))
+        names += [sfx_f, pfx_f, sfx_t, sfx_fld, sfx_m, exp_t]
+    return "\n".join(decls), " + ".join(uses) or "0", names
+
+
+def marker_module(tag, shapes=()):
     """A module whose every nameable position carries a unique marker; nothing is passed to reflection."""
+    sdecls, suse, snames = shape_decls(tag, shapes)
     files = {
         "go.mod": "module modmarker%s.example/rootpkg%s\n\ngo 1.26\n" % (tag, tag),
         "mainfile%s.go" % tag: '''package main
@@ -55,13 +85,18 @@ func (u *unexpType%(t)s) unexpLibMethod%(t)s(k int) int { return u.inner%(t)s[k%
 func unexpFunc%(t)s(n int) int { return unexpVar%(t)s.unexpLibMethod%(t)s(n) }
 
 //go:noinline
-func ExportedFunc%(t)s(n int) int { return unexpFunc%(t)s(n) + 1 }
-''' % {"t": tag},
+func ExportedFunc%(t)s(n int) int { return unexpFunc%(t)s(n) + 1 + shapes%(t)s(n) }
+
+//go:noinline
+func shapes%(t)s(n int) int { return %(suse)s }
+
+%(sdecls)s
+''' % {"t": tag, "suse": suse, "sdecls": sdecls},
     }
     must_go = ["mainType" + tag, "mainField" + tag, "unexpMethod" + tag, "mainVar" + tag, "mainFunc" + tag,
                "ExportedType" + tag, "ExpField" + tag, "unexpField" + tag, "unexpType" + tag, "inner" + tag, "ExportedVar" + tag, "unexpVar" + tag,
                "unexpLibMethod" + tag, "unexpFunc" + tag, "ExportedFunc" + tag,
-               "pkgmarker" + tag, "modmarker" + tag, "rootpkg" + tag, "dirmarker" + tag, "mainfile" + tag, "libfile" + tag]
+               "pkgmarker" + tag, "modmarker" + tag, "rootpkg" + tag, "dirmarker" + tag, "mainfile" + tag, "libfile" + tag, "shapes" + tag] + snames
     return files, must_go
 
 
@@ -98,6 +133,8 @@ def run(res, tier, seed, replay):
     except vlib.BuildError as e:
         res.violation("garble-build", "garble no longer builds: %s" % str(e)[-800:], {"error": str(e)}, found_input=False)
         return
+    shapes = name_shape_dictionary()
+    res.cov["name_shapes_from_source"] = shapes
     all_cfgs = [[], ["-tiny"], ["-seed=AAAAAAAAAAE"], ["-literals"]]
     cfgs = [[], all_cfgs[1 + seed % 3]] if tier == "quick" else all_cfgs
     caches = e2e.Caches("c02")
@@ -106,7 +143,7 @@ def run(res, tier, seed, replay):
     link_lines = 0
     for ci, gflags in enumerate(cfgs):
         tag = M + "abcdefgh"[ci]
-        files, must_go = marker_module(tag)
+        files, must_go = marker_module(tag, shapes)
         srcroot = vlib.sub("c02-%d" % ci)
         pdir = os.path.join(srcroot, "srcdir" + tag)
         shutil.rmtree(pdir, ignore_errors=True)
